@@ -28,6 +28,7 @@ type Guard struct {
 	CondV ssa.Value // the SSA condition, for engines that need the operand values (affine forms)
 	Env   *Env
 	IfPos ssa.Instruction
+	Ret   bool // the guard is a returned boolean value, not a branch
 }
 
 // A Site is a block of a function analysed under an environment.
@@ -600,6 +601,55 @@ func (ge *GuardEngine) guardsRec(fn *ssa.Function, env *Env, chain []string, ctx
 		if !g.Weak {
 			if call := propagatingCall(ifi.Cond); call != nil {
 				expand(call, b, nil)
+			}
+		}
+	}
+	// bool functions: "return v" / "return a && v" with a non-constant v rejects iff v is false
+	if fi.kind == "bool" {
+		isDelegate := func(v ssa.Value) bool {
+			for _, d := range fi.delegates {
+				if ssa.Value(d) == v {
+					return true
+				}
+			}
+			return false
+		}
+		emit := func(v ssa.Value, at *ssa.BasicBlock, ret *ssa.Return) {
+			if _, isConst := v.(*ssa.Const); isConst || isDelegate(v) || len(at.Instrs) == 0 {
+				return
+			}
+			if _, isPhi := v.(*ssa.Phi); isPhi {
+				return
+			}
+			term := at.Instrs[len(at.Instrs)-1]
+			ge.pv.loadCtx = []ssa.Instruction{term}
+			l, op, r := ge.decompose(v, env)
+			g := Guard{Fn: fn, Block: at, Pos: v.Pos(), L: l, Op: negOp[op], R: r, Chain: chain, CondV: v, Env: env, IfPos: term, Ret: true}
+			if !g.Pos.IsValid() {
+				g.Pos = ret.Pos()
+			}
+			g.Ctx = append(append([]string{}, ctx...), ge.condCtx(fi, at, env)...)
+			g.Sites = append(append([]Site{}, sites...), Site{fn, at, env})
+			out = append(out, g)
+			if call := propagatingCall(v); call != nil {
+				expand(call, at, nil)
+			}
+		}
+		for _, b := range fn.Blocks {
+			if len(b.Instrs) == 0 {
+				continue
+			}
+			ret, ok := b.Instrs[len(b.Instrs)-1].(*ssa.Return)
+			if !ok || len(ret.Results) == 0 {
+				continue
+			}
+			rv := ret.Results[len(ret.Results)-1]
+			if phi, ok := rv.(*ssa.Phi); ok && phi.Block() == b {
+				for i, e := range phi.Edges {
+					emit(e, b.Preds[i], ret)
+				}
+			} else {
+				emit(rv, b, ret)
 			}
 		}
 	}
